@@ -245,6 +245,11 @@ func genRandom(r *kernel.Rand) *kernel.Scenario {
 			sc.Faults = append(sc.Faults, kernel.St("regfail", "n", r.Intn(6)))
 		}
 	}
+	if r.Bool(0.25) {
+		// a StartWatching whose chain subscription cannot be set up (never the
+		// first one: that is the ledger channel's)
+		sc.Faults = append(sc.Faults, kernel.St("subfail", "n", 1+r.Intn(5)))
+	}
 	return sc
 }
 
